@@ -482,6 +482,10 @@ def run(ctx, sm, facts):
         for e in ctx.errors[nerr:]:
             ctx.note('shape rule not evaluable (%s); clause decided by C10.f scenarios' % e[:90])
         ctx.errors[nerr:] = [e for e in ctx.errors[nerr:] if not (e.startswith('C10.c') or e.startswith('C10.d'))]
+    # the enable is a wire value read before the edge: that presupposes that no prepare() takes effect before the commit (C05.c rules)
+    from .c05 import check_c as c05_check_c
+    ctx.rule('C05.c', 'a prepared value becomes visible only at the commit (single pending list): see C05')
+    c05_check_c(ctx, facts)
     ctx.not_decided.append('"state unchanged when gated" as such: it follows from C05.a (clock() has no immediate effect on wires) '
                            'plus clockAll being the only caller of clock() (C05.b), both checked there')
 
